@@ -220,7 +220,11 @@ def gen_stream(rng, hostile=0.5, max_msgs=4, sentinel=True):
     n = rng.randint(1, max_msgs)
     parts = []
     for i in range(n):
+        if rng.random() < 0.06:
+            parts.append(rng.choice([CRLF, CRLF, CRLF + CRLF, b"\n", b"\r", b" " + CRLF]))     # stray empty line before a request
         parts.append(gen_message(rng, i, hostile))
+    if rng.random() < 0.04:
+        parts.append(rng.choice([CRLF, CRLF + CRLF, b"\r"]))
     s = b"".join(parts)
     if sentinel:
         s += marker(n, b"end")
